@@ -188,7 +188,11 @@ def isPost (S : List Summary) (p : List Stmt) (A : Pts) : Bool := p.all (fun s =
 /-- all objects some statement of `p` may bump when the names are bounded by `A` -/
 def writeSet (S : List Summary) (p : List Stmt) (A : Pts) : List Obj := p.flatMap (fun s => targets S s A)
 
-def analysisOK (S : List Summary) (p : List Stmt) (fuel : Nat) : Bool := isPost S p (analyse S p fuel)
+/-- one more pass over all statements adds nothing: the table is closed (cheaper to evaluate than `isPost`, and implies it
+because every statement only adds to the table) -/
+def passClosed (S : List Summary) (p : List Stmt) (A : Pts) : Bool := leB (pass S p A) A
+
+def analysisOK (S : List Summary) (p : List Stmt) (fuel : Nat) : Bool := passClosed S p (analyse S p fuel)
 
 def dedup {α : Type} [DecidableEq α] : List α → List α
   | [] => []
